@@ -298,7 +298,7 @@ Proof.
   destruct (d_step t0 m s ([(pos, t0)], None)) as [l o].
   destruct l as [|x [|y l]]; destruct o as [f|]; try reflexivity.
   - destruct pos; [reflexivity|]. destruct s as [a t ps]. destruct t; try reflexivity.
-    destruct (derived_preds ps); [|reflexivity]. destruct (negb _); [reflexivity|].
+    destruct (derived_preds ps); [|reflexivity].
     destruct (create_in vis m r _ _); apply payload_insert_kid.
   - destruct (create_in vis m r (fst x) (snd x)); apply payload_set_kid.
 Qed.
@@ -402,7 +402,6 @@ Proof.
     + (* no candidate: a new element *)
       destruct pos as [|a0 pos']; [discriminate H|].
       destruct (derived_preds ps) as [ds|] eqn:Ed; [|discriminate H].
-      destruct (negb (prefixes_declared m pr ds)); [discriminate H|].
       destruct (create_in vis m r ((a0 :: pos') ++ [insert_index vis (tkids t0)]) (new_node m t0 pr l ds)) as [n' p'|n' f] eqn:Ec;
         [|discriminate H].
       inversion H; subst; clear H.
@@ -458,7 +457,7 @@ Proof.
   fold (ctx_nd root (0 :: q)).
   destruct (eval (docnode root) m [LocationPath false ss] (ctx_nd root (0 :: q))) as [[|x [|y l]]|f] eqn:Ev; try discriminate.
   - (* creation *)
-    rewrite Hs. cbn [opt_default].
+    rewrite Hs. cbn [opt_default]. destruct (pre_check m ss); [discriminate|].
     destruct (create_in vis m ss (0 :: q) t0) as [t0' p'|t0' f] eqn:Ecr; [|discriminate]. intro H. inversion H; subst; clear H.
     destruct (create_finds vis m (docnode (replace_at root q t0')) ss (0 :: q) t0 t0' p G Ht Ecr) as (sub & q' & Hf & Hq).
     exists (p, sub). split; [|reflexivity].
@@ -484,7 +483,8 @@ Proof.
   destruct (negb (locatable [LocationPath true (s :: r)])); [discriminate|].
   fold (ctx_nd root ctx).
   destruct (eval (docnode root) m [LocationPath true (s :: r)] (ctx_nd root ctx)) as [[|x [|y l]]|f] eqn:Ev; try discriminate.
-  - cbn [forallb] in G. apply andb_prop in G as [Gs Gr].
+  - destruct (pre_check m (s :: r)); [discriminate|].
+    cbn [forallb] in G. apply andb_prop in G as [Gs Gr].
     destruct s as [a t ps]. destruct a; try discriminate Gs. destruct t as [pr l| | |]; try discriminate Gs.
     cbn [create_in].
     pose proof (good_step_single (docnode root) m pr l ps ([], docnode root) Gs) as E0.
@@ -573,7 +573,7 @@ Proof.
   destruct s as [a t ps]. destruct a; try discriminate Gs. destruct t as [pr l| | |]; try discriminate Gs.
   cbn [create_in]. pose proof (good_step_single n m pr l ps (pos, n) Gs) as E0. rewrite children_filter, Hk in E0. cbn in E0.
   rw_step E0. destruct pos as [|a0 pos']; [congruence|].
-  destruct (good_derived m pr l ps Gs) as (ds & Hd). rewrite Hd, (good_declared m pr l ps ds Gs Hd). cbn [negb].
+  destruct (good_derived m pr l ps Gs) as (ds & Hd). rewrite Hd.
   destruct (IH ((a0 :: pos') ++ [insert_index vis (tkids n)]) (new_node m n pr l ds) Gr eq_refl) as (n' & p & Hc).
   { destruct pos'; discriminate. }
   rewrite Hc. eauto.
@@ -598,7 +598,6 @@ Proof.
   destruct (sel (smatch m pr l ps) 0 (tkids t0)) as [|[j k] [|? ?]] eqn:ES; cbn [map fst snd] in H.
   - destruct pos as [|a0 pos']; [inversion H; reflexivity|].
     destruct (derived_preds ps) as [ds|] eqn:Ed; [|inversion H; reflexivity].
-    destruct (negb (prefixes_declared m pr ds)); [inversion H; reflexivity|].
     destruct (chain_no_fault vis m r ((a0 :: pos') ++ [insert_index vis (tkids t0)]) (new_node m t0 pr l ds) Gr eq_refl) as (n' & p & Hc).
     { destruct pos'; discriminate. }
     rewrite Hc in H. discriminate H.
@@ -629,7 +628,7 @@ Proof.
     destruct s as [a t ps]. destruct a; try discriminate Gs. destruct t as [pr l| | |]; try discriminate Gs.
     cbn [create_in] in H. pose proof (good_step_single n m pr l ps (pos, n) Gs) as E0. rewrite children_filter, Hk in E0. cbn in E0.
     rw_step_in H E0. destruct pos as [|a0 pos']; [congruence|].
-    destruct (derived_preds ps) as [ds|]; [|discriminate H]. destruct (negb _); [discriminate H|].
+    destruct (derived_preds ps) as [ds|]; [|discriminate H].
     destruct (create_in vis m r ((a0 :: pos') ++ [insert_index vis (tkids n)]) (new_node m n pr l ds)) as [n2 p2|n2 f] eqn:Ec; [|discriminate H].
     inversion H; subst; clear H.
     assert (C2 : chain n2).
@@ -649,7 +648,7 @@ Proof.
   rw_step_in H E0. clear E0.
   destruct (sel (smatch m pr l ps) 0 (tkids t0)) as [|[j k] [|? ?]] eqn:ES; cbn [map fst snd] in H; [| |discriminate H].
   - destruct pos as [|a0 pos']; [discriminate H|].
-    destruct (derived_preds ps) as [ds|]; [|discriminate H]. destruct (negb _); [discriminate H|].
+    destruct (derived_preds ps) as [ds|]; [|discriminate H].
     destruct (create_in vis m r ((a0 :: pos') ++ [insert_index vis (tkids t0)]) (new_node m t0 pr l ds)) as [n' p'|n' f] eqn:Ec; [|discriminate H].
     inversion H; subst; clear H. apply grown_insert; [exact Ht|apply insert_index_le|].
     apply (chain_result vis m r ((a0 :: pos') ++ [insert_index vis (tkids t0)]) (new_node m t0 pr l ds) n' p Gr eq_refl eq_refl);
@@ -682,7 +681,8 @@ Proof.
   intros G Hs Ht. unfold foc. destruct (negb (locatable [LocationPath ab ss])); [discriminate|].
   destruct (eval _ _ _ _) as [[|x [|y l]]|f]; try discriminate.
   - destruct ab.
-    + destruct ss as [|s r]; [cbn; intro H; inversion H; left; reflexivity|].
+    + destruct (pre_check m ss); [discriminate|].
+      destruct ss as [|s r]; [cbn; intro H; inversion H; left; reflexivity|].
       cbn [forallb] in G. apply andb_prop in G as [Gs Gr].
       destruct s as [a t ps]. destruct a; try discriminate Gs. destruct t as [pr l| | |]; try discriminate Gs.
       cbn [create_in].
@@ -690,29 +690,108 @@ Proof.
       rw_step E0. destruct (smatch m pr l ps root) eqn:Fr; cbn [map fst snd app]; [|discriminate].
       destruct (create_in vis m r [0] root) as [k' p'|k' f] eqn:Ecr; [|discriminate]. intro H. inversion H; subst; clear H.
       right. right. split; [reflexivity|]. cbn. eapply create_grown; eauto. eapply smatch_tag; eauto.
-    + rewrite Hs. cbn [opt_default].
+    + rewrite Hs. cbn [opt_default]. destruct (pre_check m ss); [discriminate|].
       destruct (create_in vis m ss (0 :: q) t0) as [t0' p'|t0' f] eqn:Ecr; [|discriminate]. intro H. inversion H; subst; clear H.
       right. left. split; [reflexivity|]. exists t0'. split; [|reflexivity]. eapply create_grown; eauto.
   - intro H. inversion H. left. reflexivity.
 Qed.
 
-(* every exception leaves the tree as it was *)
-Lemma foc_fault_unchanged vis root m ab ss q t0 t' f :
-  forallb (step_good m) ss = true -> subtree root q = Some t0 ->
-  foc vis root m m [LocationPath ab ss] (0 :: q) = FocFault t' f -> t' = root.
+(* ---- every exception leaves the tree as it was: for EVERY expression, mapping, filter and tree *)
+Lemma apply_preds_nil m ps : apply_preds m ps [] = Ok [].
+Proof. induction ps as [|p ps IH]; [reflexivity|]. cbn. exact IH. Qed.
+Lemma childless_step D m t ps pos n : tkids n = [] -> d_step D m (LocationStep AxChild t ps) ([(pos, n)], None) = ([], None).
 Proof.
-  intros G Hs. unfold foc. destruct (negb (locatable [LocationPath ab ss])); [intro H; inversion H; reflexivity|].
+  intro Hk. unfold d_step. cbn [fst snd collect d_step1 d_axis]. unfold children, children_rel. cbn [snd]. rewrite Hk. cbn.
+  rewrite apply_preds_nil. reflexivity.
+Qed.
+Lemma loc_step_inv s : loc_step s = true -> exists pr l ps, s = LocationStep AxChild (NameMatchTest pr l) ps /\ forallb loc_expr ps = true.
+Proof. destruct s as [a t ps]. destruct a; try discriminate. destruct t; try discriminate. cbn. eauto. Qed.
+
+Lemma chain_no_fault_loc vis m : forall r pos n, forallb loc_step r = true -> tkids n = [] -> pos <> [] ->
+  exists n' p, create_in vis m r pos n = COk n' p.
+Proof.
+  induction r as [|s r IH]; intros pos n G Hk Hp; [cbn; eauto|].
+  cbn [forallb] in G. apply andb_prop in G as [Gs Gr]. destruct (loc_step_inv s Gs) as (pr & l & ps & -> & Lp).
+  cbn [create_in]. pose proof (childless_step n m (NameMatchTest pr l) ps pos n Hk) as E0. rw_step E0.
+  destruct pos as [|a0 pos']; [congruence|]. destruct (loc_preds_derived ps Lp) as (ds & ->).
+  destruct (IH ((a0 :: pos') ++ [insert_index vis (tkids n)]) (new_node m n pr l ds) Gr eq_refl) as (n' & p & Hc).
+  { destruct pos'; discriminate. }
+  rewrite Hc. eauto.
+Qed.
+
+Lemma filter_test_incl m t : forall l l', filter_test m t l = Ok l' -> incl l' l.
+Proof.
+  induction l as [|c l IH]; intros l' H; cbn in H; [inversion H; apply incl_refl|].
+  destruct (d_test m t c) as [b|]; [|discriminate]. cbn in H. destruct (filter_test m t l) as [r|]; [|discriminate].
+  cbn in H. inversion H. destruct b; [apply incl_cons; [left; reflexivity|apply incl_tl; apply IH; reflexivity]|apply incl_tl; apply IH; reflexivity].
+Qed.
+Lemma filter_pred_incl m p size : forall cs pos l, filter_pred m p size pos cs = Ok l -> incl l cs.
+Proof.
+  induction cs as [|c cs IH]; intros pos l H; cbn in H; [inversion H; apply incl_refl|].
+  destruct (d_expr m p c pos size) as [v|]; [|discriminate]. cbn in H.
+  destruct (filter_pred m p size (pos + 1) cs) as [r|] eqn:E; [|discriminate]. cbn in H. inversion H.
+  destruct (keep_py v pos); [apply incl_cons; [left; reflexivity|apply incl_tl; eapply IH; eauto]|apply incl_tl; eapply IH; eauto].
+Qed.
+Lemma apply_preds_incl m : forall ps cs l, apply_preds m ps cs = Ok l -> incl l cs.
+Proof.
+  induction ps as [|p ps IH]; intros cs l H; cbn in H; [inversion H; apply incl_refl|].
+  destruct (filter_pred m p (N.of_nat (length cs)) 1 cs) as [r|] eqn:E; [|discriminate]. cbn in H.
+  eapply incl_tran; [eapply IH; eauto|eapply filter_pred_incl; eauto].
+Qed.
+Lemma child_step_incl D m t ps n l o : d_step D m (LocationStep AxChild t ps) ([n], None) = (l, o) -> incl l (children n).
+Proof.
+  unfold d_step. cbn [fst snd collect d_step1 d_axis].
+  destruct (filter_test m t (children n)) as [c|] eqn:E1; cbn [bind]; [|intro H; inversion H; intros x []].
+  destruct (apply_preds m ps c) as [c'|] eqn:E2; [|intro H; inversion H; intros x []].
+  rewrite app_nil_r. intro H. inversion H; subst. intros x Hx. apply dedup_subset in Hx.
+  eapply filter_test_incl; eauto. eapply apply_preds_incl; eauto.
+Qed.
+Lemma number_from_nth {A} (l : list A) : forall i0 i x, In (i, x) (number_from i0 l) -> exists j, i = i0 + j /\ nth_error l j = Some x.
+Proof.
+  induction l as [|y l IH]; intros i0 i x H; cbn in H; [contradiction|]. destruct H as [H|H].
+  - inversion H; subst. exists 0. split; [lia|reflexivity].
+  - destruct (IH _ _ _ H) as (j & -> & Hn). exists (S j). split; [lia|exact Hn].
+Qed.
+Lemma children_In pos t0 x : In x (children (pos, t0)) -> exists i, fst x = pos ++ [i] /\ nth_error (tkids t0) i = Some (snd x).
+Proof.
+  unfold children, children_rel. cbn [fst snd]. intro H. apply in_map_iff in H as (y & <- & Hy).
+  apply in_map_iff in Hy as ([i k] & <- & Hin). destruct (number_from_nth _ _ _ _ Hin) as (j & -> & Hn).
+  exists j. cbn. auto.
+Qed.
+
+Lemma create_unchanged_loc vis m : forall ss pos t0 t' f,
+  forallb loc_step ss = true -> create_in vis m ss pos t0 = CFault t' f -> t' = t0.
+Proof.
+  induction ss as [|s r IH]; intros pos t0 t' f G H; [discriminate H|].
+  cbn [forallb] in G. apply andb_prop in G as [Gs Gr]. destruct (loc_step_inv s Gs) as (pr & l & ps & -> & Lp).
+  cbn [create_in] in H.
+  destruct (d_step t0 m (LocationStep AxChild (NameMatchTest pr l) ps) ([(pos, t0)], None)) as [lst o] eqn:E.
+  destruct lst as [|x [|y lst]]; destruct o as [f0|]; try (inversion H; reflexivity).
+  - destruct pos as [|a0 pos']; [inversion H; reflexivity|].
+    destruct (loc_preds_derived ps Lp) as (ds & Hd). rewrite Hd in H.
+    destruct (chain_no_fault_loc vis m r ((a0 :: pos') ++ [insert_index vis (tkids t0)]) (new_node m t0 pr l ds) Gr eq_refl) as (n' & p & Hc).
+    { destruct pos'; discriminate. }
+    rewrite Hc in H. discriminate H.
+  - destruct (create_in vis m r (fst x) (snd x)) as [k' p'|k' f'] eqn:Ec; [discriminate H|]. inversion H; subst; clear H.
+    rewrite (IH _ _ _ _ Gr Ec).
+    pose proof (child_step_incl _ _ _ _ _ _ _ E x (or_introl eq_refl)) as Hin.
+    destruct (children_In pos t0 x Hin) as (i & Hp & Hn). rewrite Hp, last_last. apply set_kid_same. exact Hn.
+Qed.
+
+Lemma locatable_inv e : locatable e = true -> exists ab ss, e = [LocationPath ab ss] /\ forallb loc_step ss = true.
+Proof. destruct e as [|[ab ss] [|? ?]]; cbn; try discriminate. eauto. Qed.
+
+Lemma foc_fault_unchanged vis root me mc e q t0 t' f :
+  subtree root q = Some t0 -> foc vis root me mc e (0 :: q) = FocFault t' f -> t' = root.
+Proof.
+  intros Hs. unfold foc. destruct (locatable e) eqn:L; cbn [negb]; [|intro H; inversion H; reflexivity].
+  destruct (locatable_inv e L) as (ab & ss & -> & G).
   destruct (eval _ _ _ _) as [[|x [|y l]]|f0]; try (intro H; inversion H; reflexivity).
   destruct ab.
-  - destruct ss as [|s r]; [discriminate|].
-    cbn [forallb] in G. apply andb_prop in G as [Gs Gr].
-    destruct s as [a t ps]. destruct a; try discriminate Gs. destruct t as [pr l| | |]; try discriminate Gs.
-    cbn [create_in].
-    pose proof (good_step_single (docnode root) m pr l ps ([], docnode root) Gs) as E0. rewrite children_filter, sel_doc in E0.
-    rw_step E0. destruct (smatch m pr l ps root) eqn:Fr; cbn [map fst snd app]; [|intro H; inversion H; subst; reflexivity].
-    destruct (create_in vis m r [0] root) as [k' p'|k' f'] eqn:Ecr; [discriminate|]. intro H. inversion H; subst; clear H.
-    rewrite (create_unchanged vis m r [0] root k' f Gr Ecr). reflexivity.
-  - rewrite Hs. cbn [opt_default].
-    destruct (create_in vis m ss (0 :: q) t0) as [t0' p'|t0' f'] eqn:Ecr; [discriminate|]. intro H. inversion H; subst; clear H.
-    rewrite (create_unchanged vis m ss (0 :: q) t0 t0' f G Ecr). apply replace_at_same. exact Hs.
+  - destruct (pre_check mc ss); [intro H; inversion H; reflexivity|].
+    destruct (create_in vis mc ss [] (docnode root)) as [D' p'|D' f'] eqn:Ecr; [discriminate|]. intro H. inversion H; subst; clear H.
+    rewrite (create_unchanged_loc vis mc ss [] (docnode root) D' f G Ecr). reflexivity.
+  - rewrite Hs. cbn [opt_default]. destruct (pre_check mc ss); [intro H; inversion H; reflexivity|].
+    destruct (create_in vis mc ss (0 :: q) t0) as [t0' p'|t0' f'] eqn:Ecr; [discriminate|]. intro H. inversion H; subst; clear H.
+    rewrite (create_unchanged_loc vis mc ss (0 :: q) t0 t0' f G Ecr). apply replace_at_same. exact Hs.
 Qed.
